@@ -2680,7 +2680,14 @@ static Token *attribute_list(Token *tok, Type *ty) {
 
       if (consume(&tok, tok, "aligned")) {
         tok = skip(tok, "(");
-        ty->align = const_expr(&tok, tok);
+        Token *start = tok;
+        int align = const_expr(&tok, tok);
+        // Like gcc, ignore a request that is not a positive alignment;
+        // an alignment of 0 would later be used as a divisor.
+        if (align > 0)
+          ty->align = align;
+        else
+          warn_tok(start, "requested alignment is not a positive power of 2");
         tok = skip(tok, ")");
         continue;
       }
